@@ -26,6 +26,11 @@ Proof.
   intros st x b st' I H. inv_step H; try (destruct b); try (destruct md); try (destruct w); destruct I; prep; go; t1.
 Qed.
 
+Lemma step_ENewRefused : forall st x st', Inv st -> step st (ENewRefused x) = Some st' -> Inv st'.
+Proof.
+  intros st x st' I H. inv_step H; destruct I; prep; go; t1.
+Qed.
+
 Lemma step_ENew : forall st x t st', Inv st -> step st (ENew x t) = Some st' -> Inv st'.
 Proof.
   intros st x t st' I H. inv_step H; destruct I; prep; go; t1.
@@ -260,6 +265,7 @@ Proof.
   - eapply step_EPop; eassumption.
   - eapply step_ECheck; eassumption.
   - eapply step_ENew; eassumption.
+  - eapply step_ENewRefused; eassumption.
   - eapply step_ECreate; eassumption.
   - eapply step_ENewReady; eassumption.
   - eapply step_ENewCancel; eassumption.
